@@ -12,7 +12,7 @@ SIZE = {"poset": 3, "diag": 3}
 def make_plan(ths, tier, rnd):
     plan = modelcheck.Plan()
     thorough = tier == "thorough"
-    for theory, (sig, stages) in ths.items():
+    for theory, (sig, stages) in modelcheck.select(ths, PROP, tier):
         if any(st["concl"]["kind"] == "def" for st in stages):
             continue
         api = histories.api_of(sig, modelcheck.module_path(theory))
